@@ -61,6 +61,32 @@ CHECKS = {
             "Reference semantics per DESIGN.md Appendix A (MeanToMid family: regression oracle). Ill-conditioned and "
             "boundary cells are excluded and counted. File system is SimFS. numpy/csv/ply trusted.",
             "DESIGN.md 5/C02"),
+    "C12": ("modelsim", "fault_enumeration",
+            "deterministic simulation with located fault injection: one model fault per run from a stratified "
+            "command x parameter x wrong-kind matrix at a seeded position/order, through the real library and CLI "
+            "routes on a simulated disk; acceptance predicate from a reference declaration table; event-trace ordering "
+            "oracle (no execute, no write-open, no stdout, no file change before the rejection)",
+            "Fault enumeration: run i takes matrix cell i mod 585 (every built-in command x {unknown command, duplicate "
+            "result, each required parameter removed, undeclared parameter, every wrong value kind per parameter kind, "
+            "producer of the wrong output kind, fuzzy/non-fuzzy swap}); the quick tier visits every cell ~15 times, the "
+            "thorough tier ~500 times, with seeded models, positions and textual orders. Each rejection must be the "
+            "documented error naming the offender and must precede every side effect on the event trace; unfaulted "
+            "twins must be accepted.",
+            "Declaration table written from docs + statement is the acceptance oracle; SimFS stands in for the disk; "
+            "CLI run in-process through click with SystemExit captured.",
+            "DESIGN.md 5/C12"),
+    "C13": ("modelsim", "fault_enumeration",
+            "deterministic simulation with fault injection (swarm): command-text corruption, CSV content faults, kind "
+            "confusion matrix, OS errors at every SimFS call, an environment actor racing the run in its TOCTOU "
+            "windows, exceptions inside execute; exception-type lattice at the from_source()/run() boundary and CLI "
+            "exit status / stderr oracle",
+            "Fault enumeration over a stratified extended kind-confusion matrix (929 cells) combined with seeded fault "
+            "sequences of 0-2 faults from 6 families (65 fault kinds, each counted when it actually fired). Outcome of "
+            "loading+running must be success, SyntaxError or an MPilotError; for MPilotError outcomes the in-process "
+            "CLI must exit non-zero with the problem/solution text on stderr and no traceback of its own.",
+            "Success outcomes are not compared with a reference here. Model-file read faults precede parsing and are "
+            "not judged. SimFS, actor and exec-fault wrappers are simulator stubs.",
+            "DESIGN.md 5/C13"),
 }
 
 PENDING = {}
